@@ -132,7 +132,7 @@ var ProfileC11 = &Profile{
 var ProfileC12 = &Profile{
 	ID: "C12", Name: "commitments", MinBlocks: 5, MaxBlocks: 40, MaxTxs: 5, Spec: specDefault, Check: CheckC12,
 	Weights: map[string]int{"amm.join": 12, "amm.exit": 12, "stablestake.bond": 6, "stablestake.unbond": 5, "leveragelp.open": 6, "leveragelp.close": 5, "leveragelp.close_positions": 2,
-		"masterchef.claim": 10, "commitment.commit_claimed": 8, "commitment.uncommit": 8, "commitment.vest": 5, "commitment.cancel_vest": 3, "commitment.claim_vesting": 3, "commitment.vest_now": 1,
+		"masterchef.claim": 10, "commitment.commit_claimed": 8, "commitment.uncommit": 8, "commitment.stake": 5, "commitment.unstake": 4, "estaking.withdraw_rewards": 2, "commitment.vest_liquid": 3, "commitment.vest": 5, "commitment.cancel_vest": 3, "commitment.claim_vesting": 3, "commitment.vest_now": 1,
 		"oracle.feed_price": 4, "amm.swap_in": 6},
 	Gaps: []time.Duration{time.Second, 5 * time.Second, 6 * time.Second, 10 * time.Minute, 59 * time.Minute, time.Hour + time.Second, 24*time.Hour + time.Second},
 	Rule: "history with >=1 successful uncommit-type op (exit/unbond/uncommit/close) after a commit of the same denom and >=1 rejected withdrawal inside the one-hour lock window",
@@ -142,13 +142,13 @@ var ProfileC12 = &Profile{
 }
 
 var ProfileC13 = &Profile{
-	ID: "C13", Name: "rewards", MinBlocks: 8, MaxBlocks: 40, MaxTxs: 5, Spec: specDefault, Check: CheckC13,
+	ID: "C13", Name: "rewards", MinBlocks: 8, MaxBlocks: 40, MaxTxs: 5, Spec: specDefault, Check: CheckC13, FinalOps: c13Drain, Final: c13Final,
 	Weights: map[string]int{"amm.swap_in": 14, "amm.swap_out": 8, "amm.swap_in_2hop": 3, "amm.join": 8, "amm.exit": 6, "stablestake.bond": 5, "stablestake.unbond": 3,
 		"perpetual.open": 6, "perpetual.close": 4, "leveragelp.open": 4, "leveragelp.close": 3, "leveragelp.claim_rewards": 2,
 		"masterchef.claim": 8, "masterchef.add_external_incentive": 5, "oracle.feed_price": 3},
 	Rule: "history with >=2 reward holders, revenue collected in >=3 blocks and >=1 successful claim",
 	NonTrivial: func(h *History) bool {
-		return h.Labels["revenue-blocks"] >= 3 && okCount(h, "masterchef.claim") > 0 && okCount(h, "amm.join", "stablestake.bond") > 0
+		return h.Labels["revenue-blocks"] >= 3 && okCount(h, "masterchef.claim") > 0 && okCount(h, "amm.join", "stablestake.bond") > 0 && h.Labels["c13-drain-claims"] > 0
 	},
 }
 
@@ -211,13 +211,18 @@ func specFaulty(t *rapid.T) WorldSpec {
 	exp := []uint64{60, 3600, 86400 * 365}
 	spec.Scenario.OracleExpirySecs = exp[UniformDraw(t, "expiry", len(exp))]
 	// lopsided / tiny pools
-	switch UniformDraw(t, "poolshape", 4) {
+	switch UniformDraw(t, "poolshape", 7) {
 	case 1:
 		spec.Pools[1].Amounts = [2]string{"1000000", "3000000"}
 	case 2:
 		spec.Pools[1].Amounts = [2]string{"300000000000000", "900000"}
 	case 3:
 		spec.Pools = append(spec.Pools, PoolSpec{UseOracle: true, Denoms: [2]string{"uusdt", "uusdc"}, Amounts: [2]string{"5000000", "5000000"}, Weights: [2]int64{50, 50}, SwapFee: "0.001"})
+	case 4, 5:
+		// a second constant-product pool whose assets can lose their feeds independently of the first one's
+		spec.Pools = append(spec.Pools, PoolSpec{UseOracle: false, Denoms: [2]string{"uusdt", "uusdc"}, Amounts: [2]string{"50000000000", "50000000000"}, Weights: [2]int64{50, 50}, SwapFee: "0.002"})
+	case 6:
+		spec.Pools = append(spec.Pools, PoolSpec{UseOracle: false, Denoms: [2]string{"uatom", "uusdc"}, Amounts: [2]string{"10000000000", "50000000000"}, Weights: [2]int64{80, 20}, SwapFee: "0.003"})
 	}
 	// masterchef reward portions incl. 0 and 1
 	mp := mctypes.DefaultParams()
